@@ -40,7 +40,8 @@ def dispatch_block(ctx, rng):
         u = RHS(with_attr)
         w = DS.DiffRHS(u)
         ops, answers = [], []
-        times = [0.0, 0.5, 1.25, 2.0, -1.0]
+        # (two pairs of closely spaced times: a cache must compare times exactly)
+        times = [0.0, 0.5, 1.25, 2.0, -1.0, 2.0 + 1.5e-5, 1000.0, 1000.004]
         for _ in range(rng.randint(1, 10)):
             r = rng.random()
             if r < 0.55:
@@ -158,6 +159,52 @@ def accuracy_block(ctx, rng):
                 ctx.count("map:" + name)
 
 
+def reuse_block(ctx, rng):
+    """ONE JacobianWrapper object (and one DiffRHS) evaluated at a sequence of points of very different difficulty: the result at a
+    point must not depend on what the same object evaluated before"""
+    def f(x):
+        return np.tanh(3.0 * x) + 0.1 * np.roll(x, -1)
+
+    def jac(x):
+        n = len(x)
+        J = np.diag(3.0 / np.cosh(3.0 * x) ** 2)
+        for i in range(n):
+            J[i, (i + 1) % n] += 0.1
+        return J
+    for order in ([2, 3, 5] if ctx.quick() else [2, 3, 4, 5, 6, 8]):
+        for rep in range(2 if ctx.quick() else 10):
+            easy = np.array([rng.choice([-1, 1]) * rng.uniform(20, 40) for _ in range(3)])      # tanh saturated: trivially converged
+            hard = [np.array([rng.uniform(-0.6, 0.6) for _ in range(3)]) for _ in range(3)]
+            seq = [hard[0], easy, hard[1], easy, hard[2]]
+            w = U.JacobianWrapper(f, base_order=order, flat=False, rtol=1e-8, atol=1e-8)
+            for k, x in enumerate(seq):
+                inp = dict(kind="jacobian-wrapper-reuse", base_order=order, position=k, x=x.tolist(), sequence=[v.tolist() for v in seq[:k]])
+                try:
+                    J = np.asarray(w(x))
+                    Jf = np.asarray(U.JacobianWrapper(f, base_order=order, flat=False, rtol=1e-8, atol=1e-8)(x))
+                except Exception as e:
+                    ctx.oracle("wrapper-runs", False, inp, what="JacobianWrapper raised %r" % (e,))
+                    break
+                ex = jac(x)
+                err, errf = float(np.max(np.abs(J - ex))), float(np.max(np.abs(Jf - ex)))
+                ctx.oracle("derivative-accurate", err <= max(1e-6, 50 * errf), dict(inp, err=err, err_of_fresh_wrapper=errf),
+                           what="reused wrapper: error %.2e at a point where a fresh wrapper has error %.2e" % (err, errf))
+                ctx.count("reuse:position=%d" % k)
+            ctx.nontrivial(("reuse", order, tuple(float(v) for v in easy)))
+    # the same through DiffRHS.jac (autonomous right-hand side, same time): after a large state, a moderate one
+    g = DS.DiffRHS(lambda t, y: f(y))
+    for rep in range(3 if ctx.quick() else 20):
+        easy = np.array([rng.choice([-1, 1]) * rng.uniform(20, 40) for _ in range(3)])
+        x = np.array([rng.uniform(-0.6, 0.6) for _ in range(3)])
+        g.jac(0.0, easy)
+        J = np.asarray(g.jac(0.0, x))
+        Jf = np.asarray(DS.DiffRHS(lambda t, y: f(y)).jac(0.0, x))
+        ex = jac(x)
+        err, errf = float(np.max(np.abs(J - ex))), float(np.max(np.abs(Jf - ex)))
+        ctx.oracle("derivative-accurate", err <= max(1e-6, 50 * errf), dict(kind="diffrhs-jac-reuse", x=x.tolist(), before=easy.tolist(), err=err, err_of_fresh=errf),
+                   what="DiffRHS.jac after a large state: error %.2e where a fresh object has %.2e" % (err, errf))
+
+
 def implicit_block(ctx, rng):
     """through an OdeSystem with an implicit method: user Jacobian used when given, and the finite-difference one follows the time"""
     for with_jac in (True, False):
@@ -186,6 +233,7 @@ def implicit_block(ctx, rng):
 def run(ctx):
     dispatch_block(ctx, ctx.rng)
     accuracy_block(ctx, ctx.rng)
+    reuse_block(ctx, ctx.rng)
     implicit_block(ctx, ctx.rng)
 
 
